@@ -122,7 +122,7 @@ for p in props:
             "quick_cmd": f"./run.sh {pid} quick",
             "thorough_cmd": f"./run.sh {pid} thorough",
             "evidence_file": f"/verif/evidence/{pid}.json",
-            "replay_cmd_template": "sh {path}  # each replay .json has a stand-alone .sh next to it",
+            "replay_cmd_template": "./run.sh replay {path}",
             "engine": "vcheck",
             "level_claimed": {"category": cat, "text": text, "design_ref": ref},
             "level_note": note,
